@@ -480,6 +480,16 @@ def run_case(concepts, case, spec):
             t = OPS_T['tuples'](t, rng)
         COL.sample({'ops': case['ops'], 'input': t})
         call(Context, *t)
+        # the very same argument objects are submitted again (a caller that retries, or that validates a
+        # table first and builds it later), also as tuples, with a well-formed table in between
+        call(Context, *t)
+        tt = (tuple(t[0]), tuple(t[1]), t[2])
+        call(Context, *tt)
+        if rng.random() < .5:
+            call(Context, tuple(objects), tuple(properties), rows)
+        call(Context, *tt)
+        call(Context, *t)
+        COL.count('same_argument_objects_submitted_again')
         return
     # dict corruption
     ctx = call(Context, objects, properties, rows)
@@ -493,6 +503,10 @@ def run_case(concepts, case, spec):
         d = OPS_D[op](d, rng)
     COL.sample({'ops': case['ops'], 'input': d})
     call(Context.fromdict, copy.deepcopy(d))
+    same = copy.deepcopy(d)
+    call(Context.fromdict, same)
+    call(Context.fromdict, same)           # the same document object again
+    COL.count('same_argument_objects_submitted_again')
     if rng.random() < .4:
         call(Context.fromdict, copy.deepcopy(d), require_lattice=True)
     if rng.random() < .3:
